@@ -66,6 +66,10 @@ fn install_hook() {
                 .location()
                 .map(|l| format!("{}:{}", l.file(), l.line()))
                 .unwrap_or_default();
+            if msg.contains("panic in a destructor during cleanup") {
+                let first = LAST_PANIC.with(|p| p.borrow().clone()).unwrap_or_else(|| "<unknown>".into());
+                crate::common::abort_verdict(&first);
+            }
             let quiet = QUIET_PANICS.with(|q| q.get());
             LAST_PANIC.with(|p| {
                 let mut p = p.borrow_mut();
